@@ -392,6 +392,7 @@ type info struct {
 	Level       string            `json:"level"`
 	Assumptions []string          `json:"assumptions"`
 	RealVsStub  map[string]string `json:"real_vs_stub"`
+	Hang        int               `json:"hang_seconds"`
 }
 
 func workerEnv(tmp string, race bool) []string {
@@ -602,6 +603,9 @@ func checkProperty(prop, tier string, seed uint64, runs, budget, workers int, re
 	crashed := []string{}
 	var hung []uint64
 	hangLimit := time.Duration(hangSeconds()) * time.Second
+	if in.Hang > hangSeconds() && os.Getenv("VERIF_HANG_SECONDS") == "" {
+		hangLimit = time.Duration(in.Hang) * time.Second // one run of this property legitimately takes long (e.g. a whole offset enumeration)
+	}
 	deadline := time.Now().Add(time.Duration(budget) * time.Second)
 	// runWorker executes runs from, from+step, ... (count of them); it returns the
 	// index of a run that exceeded the liveness bound (the worker was killed), or -1.
